@@ -524,7 +524,17 @@ class StmtsMixin:
         for cl in spec.get('hint', []):
             m = re.match(r'(\w+)\s*:\s*(.*)$', cl.text, re.S)
             if m and m.group(1) == where:
-                self.run_hint(st, SpecEnv(st, {}, st.entry), m.group(2), cl)
+                env = SpecEnv(st, {}, st.entry)
+                if where in ('step', 'exit'):
+                    # a hint about ghost state that only some paths through the body set up is skipped on the others
+                    env.strict_names = True
+                    try:
+                        self.run_hint(st, env, m.group(2), cl)
+                    except Unsupported as ex:
+                        if 'unknown name' not in str(ex):
+                            raise
+                else:
+                    self.run_hint(st, env, m.group(2), cl)
 
     def havoc_loop_state(self, h, vs, fs, calls, spec, s):
         self.bump_top(h)              # iterations may have allocated
